@@ -3,7 +3,7 @@ import SaModel.Props.ConstGenTrace
 WORDING — not an obligation of any property.  The message literals of the model compared with the message texts the translator
 reads out of the sources NOW (`Generated/Constants*.lean`).  No property of serde_arrow constrains the English wording of an
 error and the correspondence suites never compare message text, so a reworded message must not raise an alarm: no check
-builds this module as an obligation (false-alarm probe g09 / g18, DESIGN.md section 7.2).  `./check --wording` builds
+builds this module as an obligation (false-alarm probes g09 / g18: DESIGN.md section 11.1, correction dated in section 7.2).  `./check --wording` builds
 `SaModel.Wording.All` and reports a failure as a NOTE.
 -/
 namespace SaModel.Props.ConstGenTrace
